@@ -7,7 +7,7 @@ BUILD = os.environ.get('VERIF_BUILD') or os.path.join(VERIF, 'build')
 TRUSTED_BASE = [
     "Coq 8.16.1 kernel (coqc; vm_compute used, native_compute not used); coqchk in the thorough tier",
     "no Axiom/Parameter/Admitted in the development; Print Assumptions under every property theorem must say 'Closed under the global context'",
-    "translator: harness op `dump` (executes the table initialisers of the compiled program) + tools/gen_tables.py -> Gen/Tables.v, Gen/Consts.v",
+    "translator: harness op `dump` (executes the table initialisers of the compiled program; probes it for the reader's line limit, the gzip endings, the e-mail / IP placeholders and - one probe line per string literal of the sources, tools/ns_candidates.py - redactNamespace's member list) + tools/gen_tables.py -> Gen/Tables.v, Gen/Consts.v, Gen/Limits.v, Gen/Probed.v",
     "extraction: ExtrOcamlBasic + ExtrOcamlNativeString (pulls in ExtrOcamlChar) only; nat/N/positive stay Coq datatypes; OCaml 4.13.1; driver/driver.ml is I/O glue",
     "correspondence machinery: harness/zz_verif_harness.go (overlay, tag verif), vlib/*.py generators, comparators and independent oracles",
     "Model/*.v is a hand transcription of the Go code; its warrant is the correspondence check run on every check invocation",
